@@ -4,6 +4,8 @@
 import SeedProofs.Lemmas.Located
 import SeedProofs.Lemmas.Instances
 import SeedProofs.Lemmas.C18EvalPosProg
+import SeedProofs.Lemmas.C17LineBound3
+-- audit: Seed.progMark_slot_piece Seed.lexAll_slotsIn Seed.parseProg_strs
 namespace Seed.C17
 open Seed
 
@@ -117,13 +119,30 @@ theorem diag_line_ge_one {src : List Char} {stmts : List Stmt} {n : Nat} {e : Er
     (hp : parseProg src = .ok stmts) (h : evalProg n stmts = .err e σ) : e.AllPos (fun l => 1 ≤ l.1) :=
   Seed.diag_line_ge_one hp h
 
-/-- full statement: the same with `1 ≤ l.1 ∧ l.1 ≤ 1 + src.count '\n'` for every program.  Proved for programs without
-    interpolation slots; missing: a bound on the lines of a slot's text by the lines of the source (positions inside a
-    slot are relative to the slot text, known findings K2/K4) -/
-theorem diag_line_in_source_partial {src : List Char} {stmts : List Stmt} {n : Nat} {e : Err} {σ : State}
-    (hp : parseProg src = .ok stmts) (hns : NoSlots stmts) (h : evalProg n stmts = .err e σ) :
+/-- **every position of every runtime diagnostic is a line of the source**, for every program — interpolation slots
+    included.  A slot's text is parsed on its own at run time and positions inside it are relative to that text, but the
+    lexer copies slot characters verbatim (no escape processing inside `${…}`), so every slot text that can ever be parsed,
+    at any nesting depth, is a contiguous piece of the source (`progMark_slot_piece`) and has no more line breaks than it;
+    the decoded literal around it may have more (escapes `\n`), which is why the bound is on the slot text and not on the
+    literal.  (Until the third session this was proved only for programs without slots: `diag_line_in_source_partial`.) -/
+theorem diag_line_in_source {src : List Char} {stmts : List Stmt} {n : Nat} {e : Err} {σ : State}
+    (hp : parseProg src = .ok stmts) (h : evalProg n stmts = .err e σ) :
     e.AllPos (fun l => 1 ≤ l.1 ∧ l.1 ≤ 1 + src.count '\n') :=
-  Seed.diag_line_in_source_partial hp hns h
+  Seed.diag_line_in_source hp h
+
+/-- the special case that was proved first (no slots) -/
+theorem diag_line_in_source_partial {src : List Char} {stmts : List Stmt} {n : Nat} {e : Err} {σ : State}
+    (hp : parseProg src = .ok stmts) (_hns : NoSlots stmts) (h : evalProg n stmts = .err e σ) :
+    e.AllPos (fun l => 1 ≤ l.1 ∧ l.1 ≤ 1 + src.count '\n') :=
+  diag_line_in_source hp h
+
+/-- non-vacuity with nested slots and escaped line feeds: a one-line source whose decoded literal has line feeds the
+    source lacks still reports line 1 -/
+example : ∃ stmts e σ, parseProg c!"x := 1;\nprint($\"a\\n\\n${\n\nx + y}\");" = .ok stmts ∧
+    evalProg 60 stmts = .err e σ ∧ e.headPos = some (2, 14) ∧ ¬ NoSlots stmts := by
+  obtain ⟨e, σ, he, hp⟩ := errOf_map (n := 60) (stmts := progOf c!"x := 1;\nprint($\"a\\n\\n${\n\nx + y}\");")
+    (f := Err.headPos) (x := some (2, 14)) (by decide +kernel)
+  exact ⟨_, e, σ, parseProg_progOf (by decide +kernel), he, hp, by decide +kernel⟩
 
 /-- a located error has a first position, and the message starts with it -/
 theorem located_head_pos (path : List Char) (func : Option (List Char)) (e : Err) (h : Located e) :
@@ -145,6 +164,15 @@ theorem stderr_line_ge_one (path : List Char) {src : List Char} {stmts : List St
       (renderErr path none e).1 = natToChars l ++ c!":" ++ natToChars c ++ c!":" ++ inFunc f' ++ c!" " ++ rest := by
   obtain ⟨l, f', rest, hl, hr⟩ := located_head_pos path none e (err_located n stmts e σ h)
   exact ⟨l.1, l.2, f', rest, (Seed.diag_line_ge_one hp h).headPos hl, hr⟩
+
+/-- … and `l` is a line of the source, whatever the program (slots included) -/
+theorem stderr_line_in_source (path : List Char) {src : List Char} {stmts : List Stmt} {n : Nat} {e : Err} {σ : State}
+    (hp : parseProg src = .ok stmts) (h : evalProg n stmts = .err e σ) :
+    ∃ (l c : Nat) (f' : Option (List Char)) (rest : List Char), 1 ≤ l ∧ l ≤ 1 + src.count '\n' ∧
+      (renderErr path none e).1 = natToChars l ++ c!":" ++ natToChars c ++ c!":" ++ inFunc f' ++ c!" " ++ rest := by
+  obtain ⟨l, f', rest, hl, hr⟩ := located_head_pos path none e (err_located n stmts e σ h)
+  have hb := Seed.diag_head_line_in_source hp h hl
+  exact ⟨l.1, l.2, f', rest, hb.1, hb.2, hr⟩
 
 /-- non-vacuity: a failure inside a called function (its body comes out of a heap cell); both positions are on lines
     1 … 4 of the four-line source -/
